@@ -813,14 +813,14 @@ impl FixtureDatabase {
     invariant it1.seq() == tuple.elts@.as_ref(), *expr == Expr::Tuple(*tuple),
         names.s().union(targets_from(tuple.elts@, it1.index@ as int)) =~= n0.union(targets_from(tuple.elts@, 0)),
 @loopstart 1
-    proof { let i = it1.index@ as int; assert(*elt == tuple.elts@[i]); assert(decreases_to!(tuple.elts => tuple.elts@[i]));
+    proof { let i = it1.index@ as int; assert(*elt == tuple.elts@[i]); assert(decreases_to!(tuple.elts => tuple.elts@[i])); assert(match *expr { Expr::Tuple(t) => t == *tuple, _ => false });
         assert(targets_from(tuple.elts@, i) == target_names(*elt).union(targets_from(tuple.elts@, i + 1))); }
 @loopvar 2 it2
 @loop 2
     invariant it2.seq() == list.elts@.as_ref(), *expr == Expr::List(*list),
         names.s().union(targets_from(list.elts@, it2.index@ as int)) =~= n0.union(targets_from(list.elts@, 0)),
 @loopstart 2
-    proof { let i = it2.index@ as int; assert(*elt == list.elts@[i]); assert(decreases_to!(list.elts => list.elts@[i]));
+    proof { let i = it2.index@ as int; assert(*elt == list.elts@[i]); assert(decreases_to!(list.elts => list.elts@[i])); assert(match *expr { Expr::List(l) => l == *list, _ => false });
         assert(targets_from(list.elts@, i) == target_names(*elt).union(targets_from(list.elts@, i + 1))); }
 @*/
 
